@@ -1483,19 +1483,29 @@ def io_comprehensions_to_loops(tree):
                     g = a.value.generators[0]
                     tgt = a.targets[0]
                     if isinstance(tgt, ast.Attribute):
-                        i += 1
-                        continue
-                    init = ast.Assign(targets=[ast.Name(id=tgt.id, ctx=ast.Store())], value=ast.List(elts=[], ctx=ast.Load()))
-                    call = ast.Expr(value=ast.Call(func=ast.Attribute(value=ast.Name(id=tgt.id, ctx=ast.Load()),
+                        # self.x = [E(io) for ..]  ->  t = []; for ..: t.append(E); self.x = t   (t: a temporary that
+                        # takes the reference's name when it builds the attribute the same way)
+                        used = {x.id for x in ast.walk(fn) if isinstance(x, ast.Name)}
+                        k = 0
+                        while f"_io{k}" in used:
+                            k += 1
+                        tname = f"_io{k}"
+                    else:
+                        tname = tgt.id
+                    init = ast.Assign(targets=[ast.Name(id=tname, ctx=ast.Store())], value=ast.List(elts=[], ctx=ast.Load()))
+                    call = ast.Expr(value=ast.Call(func=ast.Attribute(value=ast.Name(id=tname, ctx=ast.Load()),
                                                                       attr="append", ctx=ast.Load()),
                                                    args=[a.value.elt], keywords=[]))
                     loop = ast.For(target=g.target, iter=g.iter, body=[call], orelse=[])
-                    for nnode in (init, loop):
+                    new = [init, loop]
+                    if isinstance(tgt, ast.Attribute):
+                        new.append(ast.Assign(targets=[tgt], value=ast.Name(id=tname, ctx=ast.Load())))
+                    for nnode in new:
                         ast.copy_location(nnode, a)
                         ast.fix_missing_locations(nnode)
-                    blk[i:i + 1] = [init, loop]
-                    applied.append(f"io-comprehension-to-loop:{q}:{tgt.id}")
-                    i += 2
+                    blk[i:i + 1] = new
+                    applied.append(f"io-comprehension-to-loop:{q}:{tname}")
+                    i += len(new)
                     continue
                 i += 1
     return applied
